@@ -281,7 +281,9 @@ class Paraxial:
         y, u = self._trace_generic(y0, u0, z0, wavelength, reverse=True,
                                    skip=stop_index+1)
 
-        max_field = self.optic.fields.max_y_field
+        # normalised field coordinates refer to the largest field in absolute
+        # value (as in the ray generator), not to the algebraic maximum of y
+        max_field = self.optic.fields.max_field
 
         if self.optic.field_type == 'object_height':
             # height of the traced ray at the object (y[-1] is its height
